@@ -547,7 +547,56 @@ theorem resolution_units :
     getResolution (.number 1) = none := by
   refine ⟨by decide +kernel, by decide +kernel, by decide +kernel, by decide +kernel, by decide +kernel⟩
 
-/-- The twelve properties mirrored, and `opacity` (a clamp, not a range) left to the run-time funnel check. -/
+/-! ## 27b. opacity -/
+
+theorem clamp01_range (v : Rat) : 0 ≤ clamp01 v ∧ clamp01 v ≤ 1 := by
+  unfold clamp01
+  by_cases h0 : 0 < v <;> simp only [h0, if_true, if_false]
+  · by_cases h1 : v < 1 <;> simp only [h1, if_true, if_false]
+    · exact ⟨Rat.le_of_lt h0, Rat.le_of_lt h1⟩
+    · exact ⟨by decide, Rat.le_refl⟩
+  · have : (0 : Rat) < 1 := by decide
+    simp only [this, if_true]
+    exact ⟨Rat.le_refl, by decide⟩
+
+theorem clamp01_id (v : Rat) (h0 : 0 ≤ v) (h1 : v ≤ 1) : clamp01 v = v := by
+  unfold clamp01
+  by_cases hp : 0 < v <;> simp only [hp, if_true, if_false]
+  · by_cases hl : v < 1 <;> simp only [hl, if_true, if_false]
+    exact Rat.le_antisymm (Rat.not_lt.1 hl) h1
+  · have hv : v = 0 := Rat.le_antisymm (Rat.not_lt.1 hp) h0
+    have : (0 : Rat) < 1 := by decide
+    simp [this, hv]
+
+/-- **`opacity`: whatever is accepted lies in [0, 1]** (css-color-4 §5: values outside the range are not invalid,
+they are clamped): a number or a percentage, never anything else. -/
+theorem opacity_in_unit_interval (t : LTok) (q : Rat) (h : opacityValidate t = some q) :
+    0 ≤ q ∧ q ≤ 1 ∧ ((∃ v, t = .number v) ∨ (∃ v, t = .percentage v)) := by
+  cases t with
+  | number v =>
+    simp only [opacityValidate, Option.some.injEq] at h
+    subst h
+    exact ⟨(clamp01_range v).1, (clamp01_range v).2, Or.inl ⟨v, rfl⟩⟩
+  | percentage v =>
+    simp only [opacityValidate, Option.some.injEq] at h
+    subst h
+    exact ⟨(clamp01_range _).1, (clamp01_range _).2, Or.inr ⟨v, rfl⟩⟩
+  | dimension v u l => simp [opacityValidate] at h
+  | other => simp [opacityValidate] at h
+
+/-- Inside the range a number is kept as it is, and `p%` is the number `p / 100`. -/
+theorem opacity_identity (v : Rat) (h0 : 0 ≤ v) (h1 : v ≤ 1) :
+    opacityValidate (.number v) = some v ∧
+    ∀ p : Rat, opacityValidate (.percentage p) = opacityValidate (.number (p / 100)) := by
+  refine ⟨by simp [opacityValidate, clamp01_id v h0 h1], fun p => rfl⟩
+
+example : opacityValidate (.number (-3)) = some 0 ∧ opacityValidate (.percentage 300) = some 1 ∧
+    opacityValidate (.percentage 50) = some (1 / 2) ∧ opacityValidate (.number (1 / 4)) = some (1 / 4) ∧
+    opacityValidate (.dimension 1 "px" "px") = none := by
+  refine ⟨by decide +kernel, by decide +kernel, by decide +kernel, by decide +kernel, by decide +kernel⟩
+
+/-- The twelve properties mirrored by AST clause tables; `opacity` (a clamp, not a range) is outside that subset and
+is modelled by hand (`Num07.opacityValidate`, section 27b). -/
 theorem numeric_inventory :
     Gen.NumericC07.numericValidators.map (·.1) =
       ["bookmark-level", "column-count", "flex-grow", "flex-shrink", "font-weight", "line-height", "max-lines",
